@@ -263,7 +263,10 @@ def run(ctx) -> None:
             rep.add("C15.R4", f"{f.qname}:set-reset", ok, f"{f.module.rel}:{c.lineno}", why)
         # R5 (map): install before creating/gathering item tasks
         if f.name == "map":
-            dom = dominators(cfg.entry, specialize({"max_concurrency is None": False, "existing_limiter is None": True}))
+            val5 = {"max_concurrency is None": False}
+            for lv in _limiter_locals(db, f):
+                val5[f"{lv} is None"] = True
+            dom = dominators(cfg.entry, specialize(val5))
             setn = {n for c in sets for n in cfg.node_containing(c)}
             spawn = [n for n in cfg.nodes if any(dotted(c.func) in ("asyncio.gather", "asyncio.create_task", "asyncio.ensure_future") for c in cfg.calls_at(n))]
             bad = [n for n in spawn if n in dom and not (dom[n] & setn)]
